@@ -22,11 +22,25 @@ def resStr (H : HashFn) (o : ReadOpts) (r : Except Err ScanResult) : String :=
     if o.trusted then scanResultStr r
     else scanResultStr r ++ " sound=" ++ (if x.blocks.all (fun b => verifies H b.cid b.data) then "1" else "0")
 
+/-- a pure-SkipNext scan (`sk-seek` / `sk-plain`): the CIDs visited and how the iteration ended -/
+def skipScanStr (H : HashFn) (o : ReadOpts) (seekable : Bool) (input : Bytes) : String :=
+  let tail := if o.trusted then "" else " sound=1"
+  match newBlockReader o seekable input with
+  | .error e => s!"open={errName e}" ++ tail
+  | .ok br =>
+    let r := BR.runChoices H o (fun _ => true) (input.length + 2) 0 br
+    let cids := r.1.filterMap fun v => match v with | .skipped m => some m.cid | .read b => some b.cid
+    s!"open=ok roots={cidsStr br.roots} cids={cidsStr cids} end={errName r.2}" ++ tail
+
+def isSkipReader (rd : String) : Bool := rd == "sk-seek" || rd == "sk-plain"
+
+def readerStr (H : HashFn) (rd : String) (o : ReadOpts) (input : Bytes) : String :=
+  if isSkipReader rd then skipScanStr H o (rd == "sk-seek") input else resStr H o (runReader H rd o input)
+
 def famScan (H : HashFn) (kv : KV) : String × String :=
   let o := readOpts kv
   let input := KV.bytes kv "in"
-  let r := runReader H (KV.getD kv "rd" "br-seek") o input
-  let m := resStr H o r
+  let m := readerStr H (KV.getD kv "rd" "br-seek") o input
   -- specification for arbitrary bytes (C02, first half): whatever comes back is sound.
   -- the harness measures `sound` with go-multihash, independently of go-car.
   let s := if o.trusted then "" else "sound=1"
@@ -59,7 +73,7 @@ def famMut (H : HashFn) (kv : KV) : String × String :=
   | some ks =>
     let k := ks.toNat!
     let input := arch.take k
-    let m := resStr H o (runReader H rd o input)
+    let m := readerStr H rd o input
     -- spec: cut inside the container header / payload header → open fails;
     -- cut on a section boundary → exactly the complete sections, clean end;
     -- elsewhere → exactly the complete sections, then an error that is not a clean end.
@@ -69,12 +83,13 @@ def famMut (H : HashFn) (kv : KV) : String × String :=
       if k < base + bnds.head! then "open=!ok"
       else
         let complete := (bnds.drop 1).filter (· ≤ rel) |>.length
-        let pre := blocksStr (blocks.take complete)
+        let pre := if isSkipReader rd then cidsStr ((blocks.take complete).map (·.cid)) else blocksStr (blocks.take complete)
+        let bk := if isSkipReader rd then "cids" else "blocks"
         if bnds.contains rel then
           -- a CARv2 whose window is cut short still announces dataSize: cut ≠ end is not clean for v2 either,
           -- but the limit reader cannot tell; the property only demands clean EOF *exactly on* boundaries.
-          s!"open=ok blocks={pre} end=eof"
-        else s!"open=ok blocks={pre} end=!eof"
+          s!"open=ok {bk}={pre} end=eof"
+        else s!"open=ok {bk}={pre} end=!eof"
     (m ++ s!" archok={archok}", s)
   | none =>
     let i := KV.nat kv "flip"
